@@ -18,7 +18,7 @@ ENGINES = [
     {"name": "codec-engine", "path": "gtmon/codecmon.py", "serves_properties": ["C07", "C08", "C14", "C15"], "kind_free_text":
      "AuxData type/value generators, independent reference codec and type-name recogniser, Java cross-check driver (java/Xcheck.java)"},
     {"name": "selftest", "path": "tools/selftest", "serves_properties": ["C%02d" % i for i in range(1, 20)], "kind_free_text":
-     "sensitivity / false-alarm self-validation: ~80 mutants must be caught, 12 behaviour-preserving refactorings must stay silent, 51 independently seeded changes under seeded/ (tools/seed_matrix)"},
+     "sensitivity / false-alarm self-validation: ~100 mutants must be caught, 12 behaviour-preserving refactorings must stay silent, 114 independently seeded changes from six rounds of sub-agents under seeded/ (tools/seed_matrix)"},
 ]
 CHECKS = {
     "C03": {
@@ -37,7 +37,7 @@ CHECKS = {
         "technique": "runtime monitor with scan oracle: layout edit histories, all 18 interval-scope and 18 section/module/IR-scope block lookups probed at check points with queries built from every critical coordinate +-1, sandwich comparison must<=got<=may",
         "text": "Held on ~1.5M lookup comparisons per quick run (320 histories, tiny coordinate space so overlaps/equal offsets/zero sizes are the norm, siblings with identical coordinates, every 4th history around 2^63/2^64-1 incl. sums beyond 2^64, 8% 'medium' worlds with tens of members per container, points, ranges with steps 1,2,3,7, empty and reversed ranges, complete point sweep at the end, lookup schedules dense/sparse/rare/end-only, bursts and toggles aimed at one container, save->load->continue): no duplicate, nothing outside the scan, nothing the scan demands missing; kind variants equal the kind filter. Thorough adds worlds with hundreds of blocks. Failing histories are minimised by delta debugging.",
         "design_ref": "DESIGN.md section 5 C05",
-        "note": "'on' with step>1 and blocks outside their interval's extent are judged by the sandwich, as the property allows; <=8 intervals, <=16 blocks.",
+        "note": "'on' with step>1 and blocks outside their interval's extent are judged by the sandwich, as the property allows.",
     },
     "C06": {
         "technique": "runtime monitor with scan oracle: interval-heavy layout histories; byte_intervals_on/at, sections_on/at and Section.address/size compared with a scan after every operation / at check points",
@@ -59,7 +59,7 @@ CHECKS = {
     },
     "C12": {
         "technique": "replica comparison under different lookup schedules (none / every step / bursts / threshold-targeted / twice) of one edit history, identical complete final probe; diagnostic hook classifies the lazy-index maintenance path taken",
-        "text": "150 histories x 5 schedules per quick run plus a scale stream (one container with 40/300/1100/2100 members, thorough up to 4200, three schedules); every final answer (all C05/C06/C13 lookups + section extents) identical across schedules. Evidence shows first-use, incremental-replay and rebuild paths and pending<,=,> size relations all observed on both tree kinds (non-empty collections only).",
+        "text": "420 histories x 5 schedules per quick run plus a scale stream (one container with 40/300/1100/2100 members, thorough up to 4200, three schedules); every final answer (all C05/C06/C13 lookups + section extents) identical across schedules. Evidence shows first-use, incremental-replay and rebuild paths and pending<,=,> size relations all observed on both tree kinds (non-empty collections only).",
         "design_ref": "DESIGN.md section 5 C12",
         "note": "Schedules are placements of lookups inside a deterministic history, explored by construction, not by a scheduler; path counters rely on a wrapper around a private method (evidence only, but required for 'held').",
     },
@@ -131,8 +131,13 @@ CHECKS = {
     },
     "C15": {
         "technique": "differential runtime monitor: real parser vs independent iterative recogniser, complete enumeration of short strings + generated names and near-miss mutants",
-        "text": "Held on every string over {a,b,<,>,','} up to length 8 (quick) / 10 (thorough), enumerated completely, and on generated names (depth<=60, <=120 siblings) with their single-token mutants: accept/reject, tree shape, print-back and the exception type all agree with the reference recogniser, also through the public encode/decode entry points. Exploration level: longer strings are sampled, not enumerated.",
+        "text": "Held on every string over {a,b,<,>,','} up to length 8 (quick) / 10 (thorough), enumerated completely, and on generated names (depth<=60, <=120 siblings; combs of 200-340 plain names after parameterised ones; 200-300 bracket pairs in one name; names made of formatting and regex metacharacters) with their single-token mutants: accept/reject, tree shape, print-back and the exception type all agree with the reference recogniser, also through the public encode/decode entry points. Exploration level: longer strings are sampled, not enumerated.",
         "design_ref": "DESIGN.md section 5 C15",
         "note": "Trusts gtmon/reftypes.py (40-line iterative recogniser) as the statement of the grammar; inputs bounded below CPython's recursion limit.",
     },
 }
+
+
+ADDENDA = {'C01': ' Live edits (also applied to the IR as loaded) include symbol payload switches, entry-point changes and a node taken out, given another UUID and put back; entry points may name blocks of other modules (earlier or later, shared between modules); long homogeneous AuxData tables around power-of-two lengths.', 'C02': ' The writer is judged again after live edits of the constructed IR and of the IR as loaded from its own file.', 'C03': ' Also: slice assignments replacing modules by their twins from another load, parentless nodes given another UUID, twin-of-member operands, and as the last step of a quarter of the histories a block of inexpressible size put into an interval (alone or in a batch), accepted or refused.', 'C05': ' Also: int-subclass query points, intervals that store bytes and are cut below them, refused block batches, a many-sections regime, and a terminal twin-UUID attach that may be refused.', 'C07': ' Also: a private Serialization instance customised for the whole run; late-read histories (tables first read after IR edits, entries judged against the IR as it is then); table-level round trips with in-place edits inside tuples and variants.', 'C08': ' Also: a private Serialization instance customised for the whole run, and a table path (AuxData object -> save -> written bytes decoded by the reference codec) over 2-4 saves with in-place edits through a kept reference.', 'C09': ' Every reference the file names must be present as that object (dropped references are violations); late-read histories as in C07.', 'C11': ' Also: dense worlds drawing all 25 expressible labels on two nodes with a saturate operation, an IR constructed from another CFG (object, set, list, iterator) modelled as an independent copy, unattached endpoints given another UUID.', 'C14': " Also: type names spelled with blanks after commas (unknown names over meaningful bytes), failed saves (10 poison recipes) followed by the judged save, in-place edits inside tuples and variants, a customised private Serialization instance; the set of unknown names is read from the API's public codec table.", 'C16': ' Also: index arguments that are no index / index-like objects / beyond ssize_t, batches with an element that cannot be a member, iterators held across edits (list: exact, both directions; sets: an operation that changes nothing must not disturb a running iteration, incl. re-adding members through every route after churn), update() with the collection itself among its arguments, slice assignments whose values come from the assigned slots.', 'C18': " Also: containment-only perturbations (move / exchange of children between parents), one field's values exchanged between two siblings, exchanged expression operands, comparisons repeated on the same objects after live edits, and a detached interval whose block gets another UUID in place.", 'C19': " Also: long histories (size 2^21) growing and cutting stored bytes by 2^8, 2^12, 2^16, 2^20 (+-1), and the bytes returned by block.contents are scribbled on (no block's or interval's contents may change)."}
+for _k, _v in ADDENDA.items():
+    CHECKS[_k]["text"] = CHECKS[_k]["text"] + _v
